@@ -181,6 +181,31 @@ def run(tier):
                 f.write(json.dumps(x) + "\n")
         tr, rej = fifocheck.validate(wd, "ffbad", bad)
         expect(res, "FifoTrace rejects a trace with %s" % what, bool(tr.violation or rej))
+    # the same run at system-call level (ProtoTrace.tla)
+    import protocheck
+    pc = os.path.join(wd, "ff.proto.ndjson")
+    pevs, _ = protocheck.convert(raw, pc)
+    tr, rej = protocheck.validate(wd, "ffp", pc)
+    expect(res, "ProtoTrace accepts a verbatim trace", not tr.violation and not rej, str(tr.violation or rej))
+    frag = [i for i, e in enumerate(pevs) if e["ev"] == "s.frag"]
+    pair = [i for i, e in enumerate(pevs) if e["ev"] == "s.pair" and any(
+        x["ev"] == "s.frag" and x["t"] == e["t"] and x["ino"] in (e["i0"], e["i1"]) for x in pevs[i:])]
+    rxclose = [i for i, e in enumerate(pevs) if e["ev"] == "s.close" and i < frag[0] and e["t"] == pevs[frag[0]]["t"]]
+
+    def moved(e):
+        e = list(e)
+        x = e.pop(rxclose[-1])
+        e.insert(frag[0], x)      # now after the first follow-up
+        return e
+    for what, mut in (("a follow-up sent on another socket", lambda e: [dict(x, ino=x["ino"] + 1) if i == frag[0] else x for i, x in enumerate(e)]),
+                      ("a fragmented message without a socket pair of its own", lambda e: [x for i, x in enumerate(e) if i != pair[0]]),
+                      ("the sender's copy of the dedicated receiving end closed only after a follow-up", moved)):
+        bad = os.path.join(wd, "ff.pbad.ndjson")
+        with open(bad, "w") as f:
+            for x in mut(pevs):
+                f.write(json.dumps(x) + "\n")
+        tr, rej = protocheck.validate(wd, "ffpbad", bad)
+        expect(res, "ProtoTrace rejects a trace with %s" % what, bool(tr.violation or rej))
     os.remove(raw)
     # ---- 3. replay comparison: falsify the model's expectation
     g = chancheck.gen(wd, "c", maxops=2)
